@@ -47,6 +47,7 @@ def corpus() -> list[tuple[str, str]]:
         "Compare": [f"a {op} b" for op in ("==", "!=", "<", "<=", ">", ">=", "is", "is not", "in", "not in")] + ["a < b <= c", "a is b is not c"],
         "IfExp": ["a if b else c"], "NamedExpr": ["(x := a)"],
         "Lambda": ["lambda: a", "lambda x: x", "lambda x, y=1: x", "lambda x, /: x", "lambda x, /, y: x", "lambda *a: a", "lambda *a, b: a", "lambda *, b: b", "lambda *, b=1: b", "lambda *, a=1, b: a", "lambda *, a, b=1: a", "lambda a, b=1, /, c=2, *, d, e=3: a",
+                   "lambda s, encoding='utf-8', errors='strict': s", "lambda *, key='a.b': key",
                    "lambda **k: k", "lambda x, /, y, *a, z=1, **k: x", "lambda x, /, *, z: x", "lambda x=1, /, y=2: x"],
         "Call": ["f()", "f(a)", "f(a, b)", "f(a=1)", "f(*a)", "f(**k)", "f(a, *b, c=1, **d)", "f(x for x in a)", "f(a)(b)"],
         "Subscript": ["a[0]", "a[b]", "a[b, c]", "a[1:2]", "a[1:2:3]", "a[:]", "a[::2]", "a[1:]", "a[:2]", "a[1:2, ::3]", "a[(b, c)]", "a[b][c]", "a[*b]", "a[()]", "a[b,]", "a[(b,), c]", "a[1:2,]"],
@@ -56,7 +57,7 @@ def corpus() -> list[tuple[str, str]]:
         "SetComp": ["{x for x in a}", "{x for x in a if x}"], "DictComp": ["{k: v for k, v in a}", "{k: v for k in a if k}", "{k: v for k in a for v in k}"],
         "GeneratorExp": ["(x for x in a)", "(x for x in a if x)"],
         "Yield": ["(yield)", "(yield a)"], "YieldFrom": ["(yield from a)"], "Starred": ["[*a]", "f(*a)"],
-        "JoinedStr": ["f'{a}'", "f'x{a}y'", "f'{a!r}'", "f'{a!s}'", "f'{a:>10}'", "f'{a!r:>10}'", "f'{a:{b}}'", "f'{a}{b}'", "f'{{a}}'", "f\"it's {a}\"", "f'{a.b}'", "f'{f(a)}'", "f'{a[\"k\"]}'", "f'{\"s\"}'", "f'{a:{b}.{c}f}'", "f'x\\ny{a}'"],
+        "JoinedStr": ["f'{a}'", "f'x{a}y'", "f'{a!r}'", "f'{a!s}'", "f'{a:>10}'", "f'{a!r:>10}'", "f'{a:{b}}'", "f'{a}{b}'", "f'{{a}}'", "f\"it's {a}\"", "f'{a.b}'", "f'{f(a)}'", "f'{a[\"k\"]}'", "f'{\"s\"}'", "f'{a:{b}.{c}f}'", "f'x\\ny{a}'", "f\"{f'{a}b'}\"", "f\"x{f'y{a}z{b!r}'}w\"", "f\"{a:{f'{b}'}}\""],
     }
     for cls, srcs in singles.items():
         for s in srcs:
@@ -160,7 +161,9 @@ def run(prog: Program, ctx: Ctx) -> None:  # noqa: PLR0912,PLR0915
     it = Interp(prog, max_depth=80, max_steps=3_000_000)
     it.ext_handlers["builtins.compile"] = lambda _i, src, **k: compile(src, k.get("filename", "<s>"), k.get("mode", "eval"), flags=ast.PyCF_ONLY_AST, dont_inherit=True)
     build = prog.function(f"{E}._build")
-    mod = Obj(prog.cls("_griffe.models.Module"), {"name": "m", "path": "m", "members": {}, "parent": None, "relative_filepath": "m.py", "filepath": "m.py"}, label="m")
+    mod = Obj(prog.cls("_griffe.models.Module"), {"name": "m", "path": "m", "members": {}, "parent": None, "relative_filepath": "m.py", "filepath": "m.py",
+                                                   "imports_future_annotations": False}, label="m")
+    mod.attrs["module"] = mod
     ecls = prog.cls(f"{E}.Expr")
     ncls = prog.cls(f"{E}.ExprName")
     items = corpus()
@@ -240,6 +243,7 @@ def run(prog: Program, ctx: Ctx) -> None:  # noqa: PLR0912,PLR0915
                 except Raised as r:
                     got = f"raises {r.exc}"
                 ctx.ob("R4", f"literal|{lbl}|package future={pkg_future}", got == want, f"`{ast.unparse(n_)}` -> `{got}`, expected `{want}`", where(ge))
+    string_annotation_scope_rows(prog, ctx, "R4")
     # call sites
     vis = prog.cls("_griffe.agents.visitor.Visitor")
     n_sites = 0
@@ -277,3 +281,42 @@ def run(prog: Program, ctx: Ctx) -> None:  # noqa: PLR0912,PLR0915
             missing = [f_ for f_ in node_cls._fields if f_ not in used and f_ not in ("ctx", "kind", "type_comment")]
             ctx.ob("R5", f"fields|{cname}", not missing, f"{bf.name} reads every field of ast.{cname}" if not missing else
                    f"{bf.name} ignores ast.{cname}.{', '.join(missing)}: that part of the source expression is dropped from the stored expression", where(bf))
+
+
+def string_annotation_scope_rows(prog: Program, ctx: Ctx, rule: str) -> None:
+    """Shared with C04: the names of a parsed string annotation belong to the scope the annotation is written in."""
+    it = Interp(prog, max_depth=80, max_steps=3_000_000)
+    it.ext_handlers["builtins.compile"] = lambda _i, src, **k: compile(src, k.get("filename", "<s>"), k.get("mode", "eval"), flags=ast.PyCF_ONLY_AST, dont_inherit=True)
+    ge = prog.function(f"{E}.get_expression")
+    # a parsed string annotation is built for the scope it is written in: same text, two scopes with the same path (two loads of one package), class scope
+    from sa.absint import Native as _N
+
+    def scope(kind: str, label: str, mod_: Obj | None = None) -> Obj:
+        o = Obj(prog.cls(f"_griffe.models.{kind}"), {"name": "K" if kind == "Class" else "sub", "path": "pkg.sub.K" if kind == "Class" else "pkg.sub", "members": {},
+                                                    "imports_future_annotations": False, "resolve": _N(lambda n_: f"{label}.{n_}")}, label=label)
+        o.attrs["module"] = mod_ if mod_ is not None else o
+        o.attrs["package"] = o.attrs["module"]
+        return o
+
+    first, second = scope("Module", "first load"), scope("Module", "second load")
+    klass = scope("Class", "class scope", first)
+    for label_, sc in (("first load of pkg.sub", first), ("second load of pkg.sub (same path)", second), ("class body in pkg.sub", klass)):
+        try:
+            e = it.call(ge, ast.parse("'Thing.Inner'", mode="eval").body, sc)
+            names_ = []
+
+            def _names(x: object) -> None:
+                if isinstance(x, Obj) and x.cls is not None:
+                    if x.cls.name == "ExprName":
+                        names_.append(x)
+                    for k_, v_ in x.attrs.items():
+                        if k_ != "parent":
+                            for y in (v_ if isinstance(v_, (list, tuple)) else [v_]):
+                                _names(y)
+
+            _names(e)
+            roots = [n_.attrs.get("parent") for n_ in names_ if not (isinstance(n_.attrs.get("parent"), Obj) and n_.attrs["parent"].cls is not None and n_.attrs["parent"].cls.name == "ExprName")]
+            got = "the scope it is written in" if roots and all(r_ is sc for r_ in roots) else f"other scopes: {[getattr(r_, 'label', r_) for r_ in roots]}"
+        except Raised as r:
+            got = f"raises {r.exc}"
+        ctx.ob(rule, f"scope-of-parsed-string|{label_}", got == "the scope it is written in", f"the names of the string annotation 'Thing.Inner' written in the {label_} are bound to {got}", where(ge))
